@@ -28,9 +28,14 @@ def evAt (tr : Trace) (i : Nat) : Option Ev := tr[i]?.map fun x => evOf x.1
 /-- Number of positions whose event satisfies `p`. -/
 def cnt (tr : Trace) (p : Ev → Bool) : Nat := tr.countP fun x => p (evOf x.1)
 
+/-- A user starts a call (with params that can, or cannot, be encoded): it takes the next call number. -/
+def Ev.isCallStart : Ev → Bool
+  | .ecall | .ecallbad => true
+  | _ => false
+
 /-- Calls are numbered 1,2,… by `ecall` events: the number of the call started at position `i`
 (= number of `ecall` events at positions `≤ i`). -/
-def callNoAt (tr : Trace) (i : Nat) : Nat := cnt (tr.take (i + 1)) (· == .ecall)
+def callNoAt (tr : Trace) (i : Nat) : Nat := cnt (tr.take (i + 1)) Ev.isCallStart
 
 /-- The events by which a request arrives. -/
 def Ev.isRead : Ev → Bool
@@ -157,14 +162,14 @@ theorem take_snoc_le (h : i ≤ tr.length) : (tr ++ [x]).take i = tr.take i :=
 theorem callNoAt_snoc_lt (h : i < tr.length) : callNoAt (tr ++ [x]) i = callNoAt tr i := by
   simp [callNoAt, take_snoc_le (x := x) (Nat.succ_le_of_lt h)]
 
-theorem callNoAt_snoc_len : callNoAt (tr ++ [x]) tr.length = cnt (tr ++ [x]) (· == .ecall) := by
+theorem callNoAt_snoc_len : callNoAt (tr ++ [x]) tr.length = cnt (tr ++ [x]) Ev.isCallStart := by
   simp [callNoAt, List.take_of_length_le]
 
 theorem cnt_take_le (p : Ev → Bool) (k : Nat) : cnt (tr.take k) p ≤ cnt tr p := by
   unfold cnt
   exact (List.take_sublist k tr).countP_le
 
-theorem callNoAt_le (k : Nat) : callNoAt tr k ≤ cnt tr (· == .ecall) := cnt_take_le _ _
+theorem callNoAt_le (k : Nat) : callNoAt tr k ≤ cnt tr Ev.isCallStart := cnt_take_le _ _
 
 @[simp] theorem reads_snoc :
     reads (tr ++ [x]) = reads tr ++ if (evOf x.1).isRead then [evOf x.1] else [] := by
@@ -464,11 +469,15 @@ theorem book_sent (m : Mon) (p : Obs) (e : Ev) (a b : Nat) :
   cases e <;> simp only [Mon.book, modR] <;> (repeat' split) <;> simp_all <;> grind
 
 theorem book_ncalls (m : Mon) (p : Obs) (e : Ev) :
-    (m.book p e).ncalls = m.ncalls + if e = .ecall then 1 else 0 := by
-  cases e <;> simp only [Mon.book, modR] <;> (repeat' split) <;> simp_all
+    (m.book p e).ncalls = m.ncalls + if e.isCallStart then 1 else 0 := by
+  cases e <;> simp only [Mon.book, modR, Ev.isCallStart] <;> (repeat' split) <;> simp_all
 
 theorem book_startedLate (m : Mon) (p : Obs) (e : Ev) (c : Nat) :
     c ∈ (m.book p e).startedLate → c ∈ m.startedLate ∨ (e = .ecall ∧ p.done = true ∧ c = m.ncalls + 1) := by
+  cases e <;> simp only [Mon.book, modR] <;> (repeat' split) <;> simp_all
+
+theorem book_badCalls (m : Mon) (p : Obs) (e : Ev) (c : Nat) :
+    c ∈ (m.book p e).badCalls ↔ c ∈ m.badCalls ∨ (e = .ecallbad ∧ c = m.ncalls + 1) := by
   cases e <;> simp only [Mon.book, modR] <;> (repeat' split) <;> simp_all
 
 theorem book_ctxd (m : Mon) (p : Obs) (e : Ev) (c : Nat) :
@@ -553,7 +562,7 @@ structure ReqHist (tr : Trace) (n : Nat) (r : Nat) (q : MReq) : Prop where
 /-- What the monitor's state means after the events of `tr` and its first `n` observations. -/
 structure Hist (tr : Trace) (n : Nat) (m : Mon) : Prop where
   sent : ∀ a b, (a, b) ∈ m.sent ↔ ∃ i, evAt tr i = some (.readResp a b)
-  ncalls : m.ncalls = cnt tr (· == .ecall)
+  ncalls : m.ncalls = cnt tr Ev.isCallStart
   late : ∀ c ∈ m.startedLate, ∃ i, evAt tr i = some .ecall ∧ (before tr i).done = true ∧ c = callNoAt tr i
   ctxd : ∀ c, c ∈ m.ctxd ↔ ∃ i, evAt tr i = some (.ectx c)
   rx : m.rxSeen = true ↔ ∃ i, evAt tr i = some .rx
@@ -561,6 +570,7 @@ structure Hist (tr : Trace) (n : Nat) (m : Mon) : Prop where
   idx : m.idx = idxAt tr tr.length
   nreqs : m.reqs.length = (reads tr).length
   req : ∀ r q, m.reqs[r]? = some q → ReqHist tr n r q
+  bad : ∀ c, c ∈ m.badCalls ↔ ∃ i, evAt tr i = some .ecallbad ∧ c = callNoAt tr i
 
 theorem not_arrived_of_le {tr : Trace} {x : Label × Obs} {t : Nat} (h : t ≤ tr.length) :
     ¬ arrived (tr ++ [x]) (reads tr).length t := by
@@ -696,9 +706,27 @@ theorem Hist.reqId {tr : Trace} {n : Nat} {m : Mon} (h : Hist tr n m) (r : Nat) 
 
 theorem hist_book {tr : Trace} {m : Mon} (l : Label) (o : Obs) (h : Hist tr tr.length m) :
     Hist (tr ++ [(l, o)]) tr.length (m.book (lastObs tr) (evOf l)) := by
-  refine ⟨?_, ?_, ?_, ?_, ?_, ?_, ?_, ?_, ?_⟩
+  refine ⟨?_, ?_, ?_, ?_, ?_, ?_, ?_, ?_, ?_, ?_⟩
+  rotate_right
+  · intro c
+    rw [book_badCalls]
+    constructor
+    · rintro (hc | ⟨h1, h3⟩)
+      · obtain ⟨i, hi, hn⟩ := (h.bad c).mp hc
+        have hl := evAt_some_lt hi
+        exact ⟨i, by rw [evAt_snoc_lt hl]; exact hi, by rw [callNoAt_snoc_lt hl]; exact hn⟩
+      · refine ⟨tr.length, by simp [h1], ?_⟩
+        rw [callNoAt_snoc_len, cnt_snoc, h3, h.ncalls]; simp [h1, Ev.isCallStart]
+    · rintro ⟨i, hi, hn⟩
+      rcases evAt_snoc_some hi with ⟨hl, hi'⟩ | ⟨hl, hi'⟩
+      · left
+        exact (h.bad c).mpr ⟨i, hi', by rw [callNoAt_snoc_lt hl] at hn; exact hn⟩
+      · right
+        subst hl
+        refine ⟨hi', ?_⟩
+        rw [hn, callNoAt_snoc_len, cnt_snoc, h.ncalls]; simp [hi', Ev.isCallStart]
   · intro a b; rw [book_sent, exists_evAt_snoc, h.sent]
-  · rw [book_ncalls, cnt_snoc, h.ncalls]; simp
+  · rw [book_ncalls, cnt_snoc, h.ncalls]
   · intro c hc
     rcases book_startedLate _ _ _ _ hc with hc | ⟨h1, h2, h3⟩
     · obtain ⟨i, hi, hd, hn⟩ := h.late c hc
@@ -706,7 +734,7 @@ theorem hist_book {tr : Trace} {m : Mon} (l : Label) (o : Obs) (h : Hist tr tr.l
       exact ⟨i, by rw [evAt_snoc_lt hl]; exact hi, by rw [before_snoc_le (Nat.le_of_lt hl)]; exact hd,
         by rw [callNoAt_snoc_lt hl]; exact hn⟩
     · refine ⟨tr.length, by simp [h1], by simpa using h2, ?_⟩
-      rw [callNoAt_snoc_len, cnt_snoc, h3, h.ncalls]; simp [h1]
+      rw [callNoAt_snoc_len, cnt_snoc, h3, h.ncalls]; simp [h1, Ev.isCallStart]
   · intro c; rw [book_ctxd, exists_evAt_snoc, h.ctxd]
   · rw [book_rxSeen, exists_evAt_snoc, h.rx]
   · rw [book_brokenSeen, h.broken]
@@ -740,7 +768,7 @@ theorem hist_book {tr : Trace} {m : Mon} (l : Label) (o : Obs) (h : Hist tr tr.l
 
 theorem hist_mark {tr : Trace} {n : Nat} {m : Mon} (hn : tr.length ≤ n + 1) (h : Hist tr n m) :
     Hist tr (n + 1) { m.mark (obsAt tr n) with prev := obsAt tr n } := by
-  refine ⟨h.sent, h.ncalls, h.late, h.ctxd, h.rx, h.broken, h.idx, ?_, ?_⟩
+  refine ⟨h.sent, h.ncalls, h.late, h.ctxd, h.rx, h.broken, h.idx, ?_, ?_, h.bad⟩
   · simp [Mon.mark, h.nreqs]
   · intro r q hq
     simp only [mark_get] at hq
@@ -755,7 +783,7 @@ theorem hist_mark {tr : Trace} {n : Nat} {m : Mon} (hn : tr.length ≤ n + 1) (h
       rwa [nreadsBefore_ge hn]
 
 theorem hist_nil : Hist [] 0 {} := by
-  refine ⟨?_, rfl, ?_, ?_, ?_, ?_, rfl, rfl, ?_⟩ <;> simp [evAt]
+  refine ⟨?_, rfl, ?_, ?_, ?_, ?_, rfl, rfl, ?_, ?_⟩ <;> simp [evAt]
 
 /-! ### the cancel bookkeeping (`Mon.bookCancel`) -/
 
@@ -771,7 +799,7 @@ theorem bookCancel_prev (m : Mon) (e : Ev) : (m.bookCancel e).prev = m.prev := b
 theorem hist_bookCancel {tr : Trace} {n : Nat} {m : Mon} (e : Ev) (h : Hist tr n m) : Hist tr n (m.bookCancel e) := by
   obtain ⟨a, u, he⟩ := bookCancel_eq m e
   rw [he]
-  exact ⟨h.sent, h.ncalls, h.late, h.ctxd, h.rx, h.broken, h.idx, h.nreqs, h.req⟩
+  exact ⟨h.sent, h.ncalls, h.late, h.ctxd, h.rx, h.broken, h.idx, h.nreqs, h.req, h.bad⟩
 
 theorem book_cancel_fields (m : Mon) (p : Obs) (e : Ev) :
     (m.book p e).cancelAsked = m.cancelAsked ∧ (m.book p e).unasked = m.unasked := by
